@@ -155,6 +155,42 @@ Definition package_modpaths (fs : node) (pkgpath : path) : list path :=
   | None => []
   end.
 
+(* package_modpaths(pkgpath, with_pkg=True)  -- what ProfmodExtractor calls:
+     if isfile(pkgpath): yield pkgpath
+     else:
+       root_path = join(pkgpath, '__init__.py'); if exists(root_path): yield root_path
+       for dpath, dnames, fnames in os.walk(pkgpath):
+         if exists(join(dpath, '__init__.py')):
+           <module files as above>
+           for dname in dnames: path = join(dpath, dname, '__init__.py'); if exists(path): yield path
+         else: del dnames[:] *)
+Definition dnames (ch : list (name * node)) : list name :=
+  map fst (filter (fun kv => node_is_dir (snd kv)) ch).
+
+Fixpoint walk_pkg (dpath : path) (n : node) : list path :=
+  match n with
+  | File => []
+  | Dir ch =>
+      if is_some (assoc INIT ch)
+      then map (fun f => dpath ++ [f]) (filter py_module_fname (fnames ch))
+           ++ flat_map (fun kv => match snd kv with
+                                  | File => []
+                                  | Dir ch' => if is_some (assoc INIT ch') then [dpath ++ [fst kv; INIT]] else []
+                                  end) ch
+           ++ flat_map (fun kv => match snd kv with
+                                  | File => []
+                                  | Dir _ => walk_pkg (dpath ++ [fst kv]) (snd kv)
+                                  end) ch
+      else []
+  end.
+
+Definition package_modpaths_pkg (fs : node) (pkgpath : path) : list path :=
+  match get fs pkgpath with
+  | Some File => [pkgpath]
+  | Some n => (if exists_ fs (pkgpath ++ [INIT]) then [pkgpath ++ [INIT]] else []) ++ walk_pkg pkgpath n
+  | None => []
+  end.
+
 (* kernprof.find_module_script:
      for suffix in '.__main__', '': fname = modname_to_modpath(module_name + suffix); if fname: return fname *)
 Definition find_module_script (fs : node) (roots : list path) (comps : list name) : option path :=
